@@ -251,5 +251,24 @@ theorem correlation_index_partial :
     expectDM (numberOp d n one [0, 1]) rho = CQ.ofRat (correlationSpec d n one (probsDM rho) 0 1) := by
   decide +kernel
 
+/-! ### `QutipState.overlap` of two pure states -/
+
+/-- **The overlap of two kets is symmetric, non-negative, and is `|⟨a|b⟩|²`** (not the square of
+the possibly complex inner product): `overlap(a, b) = overlap(b, a) ≥ 0`, and it is the product
+`⟨a|b⟩·⟨b|a⟩`, the quantity `Tr(|a⟩⟨a| |b⟩⟨b|)` that the density-matrix branch computes. -/
+theorem overlap_ket (A B : Mat) (h : A.r = B.r) :
+    overlapKet A B = overlapKet B A ∧ 0 ≤ overlapKet A B ∧
+    innerKet A B * innerKet B A = CQ.ofRat (overlapKet A B) := by
+  refine ⟨?_, CQ.normSq_nonneg _, ?_⟩
+  · unfold overlapKet; rw [innerKet_conj A B h, CQ.normSq_conj]
+  · rw [innerKet_conj A B h]; unfold overlapKet
+    ext <;> simp [CQ.normSq, CQ.ofRat] <;> ring
+
+/-- Non-vacuity, and the case that separates `|z|²` from `z²`: `(|0⟩+|1⟩)` against `(|0⟩+i|1⟩)`
+(unnormalised) has inner product `1 + i`, overlap `2`, while `(1+i)² = 2i` has real part `0`. -/
+example : overlapKet (ketMat [1, 1]) (ketMat [1, ⟨0, 1⟩]) = 2 ∧
+    (innerKet (ketMat [1, 1]) (ketMat [1, ⟨0, 1⟩]) * innerKet (ketMat [1, 1]) (ketMat [1, ⟨0, 1⟩])).re = 0 := by
+  decide +kernel
+
 end C20
 end Pulser
